@@ -173,6 +173,45 @@ func c13Exec(op string) string {
 			note = "teeReader wrote other bytes than it delivered"
 		}
 		return "ok " + strings.Join(parts, " ") + " | " + note
+	case "jbulk":
+		// jbulk cont budget bytes : HandleJsonReader (and the Raw form) with an error handler that
+		// answers `cont` and a map handler that returns false on its budget-th call (0 = never),
+		// beside Mxj.Files.handleJson
+		cont := c.boolean()
+		budget := c.nat()
+		data := c.str()
+		if c.err != nil {
+			return "bad-op " + c.err.Error()
+		}
+		mxj.JsonUseNumber = true
+		run := func(raw bool) string {
+			var seen []interface{}
+			nerr := 0
+			h := func(m mxj.Map) bool {
+				seen = append(seen, map[string]interface{}(m))
+				return budget == 0 || len(seen) < budget
+			}
+			var herr error
+			if raw {
+				herr = mxj.HandleJsonReaderRaw(strings.NewReader(data), func(m mxj.Map, _ []byte) bool { return h(m) }, func(error, []byte) bool { nerr++; return cont })
+			} else {
+				herr = mxj.HandleJsonReader(strings.NewReader(data), h, func(error) bool { nerr++; return cont })
+			}
+			end := "done"
+			if herr != nil {
+				end = "failed"
+			}
+			if seen == nil {
+				seen = []interface{}{}
+			}
+			return fmt.Sprintf("ok %s errs=%d %s", enc(seen), nerr, end)
+		}
+		a, b := run(false), run(true)
+		note := ""
+		if a != b {
+			note = "BULK HandleJsonReaderRaw behaves differently from HandleJsonReader: " + clip(b, 150) + " vs " + clip(a, 150)
+		}
+		return a + " | " + note
 	case "implonly":
 		if c.pos < len(c.toks) && c.toks[c.pos] == "bulkerr" {
 			return c13BulkErr(c)
@@ -551,6 +590,9 @@ func c13Describe(op string) string {
 			}
 		}
 		return fmt.Sprintf("%s x%d data=%q schedule: %d reads (%d zero-length, %d byte+EOF, %d (0,EOF), %d errors)", name, c.nat(), data, len(s), kinds['0'], kinds['E'], kinds['Z'], kinds['F'])
+	case "jbulk":
+		cont, budget := c.boolean(), c.nat()
+		return fmt.Sprintf("HandleJsonReader/Raw errorHandlerContinues=%v mapHandlerStopsAtCall=%d (0 = never) stream=%q", cont, budget, c.str())
 	case "implonly":
 		if c.toks[c.pos] == "bulkerr" {
 			c.pos++
@@ -604,7 +646,7 @@ func c13Judge(op, impl, model string) Verdict {
 		} else {
 			v.CorrOK = ip[0] == model
 		}
-		v.Nontrivial = strings.Contains(ip[0], "doc ") || strings.Contains(ip[0], " bs")
+		v.Nontrivial = strings.Contains(ip[0], "doc ") || strings.Contains(ip[0], " bs") || strings.Contains(ip[0], " errs=")
 		if strings.Contains(ip[0], "NILRAW") {
 			v.OracleFail = "getJson returned a nil buffer (the Raw reader dereferences it)"
 			v.Sig = "getjson:nilraw"
@@ -694,6 +736,30 @@ func c13Gen(r *Rng, n int) []string {
 				s[r.Intn(len(s))] = rd{'F', 0}
 			}
 			ops = append(ops, fmt.Sprintf("bread %s %d", encSched(s), len(data)+3))
+		case 2:
+			if r.P(55) {
+				// the JSON bulk handler beside its model: well-formed objects, objects the decoder
+				// rejects, stray closers, an object left open at the end, junk between them
+				nd := 1 + r.Intn(5)
+				data := ""
+				for i := 0; i < nd; i++ {
+					data += r.Pick([]string{"", " ", "\n", "\t\r\n", "junk "})
+					switch r.Intn(8) {
+					case 0:
+						data += r.Pick([]string{`{"zbad":}`, `{"a":tru}`, `{"a" 1}`, `{"a":1,}`, `{,}`, `{"a":{"b":}}`})
+					case 1:
+						data += r.Pick([]string{"}", "null", "[1,2]", `"s"`, "{}"})
+					default:
+						data += r.jsonStreamDoc()
+					}
+				}
+				if r.P(12) {
+					data += r.Pick([]string{`{"open":1`, `{"s":"unterminated`, "{"})
+				}
+				ops = append(ops, fmt.Sprintf("jbulk %d %d %s", b2i(r.Bool()), r.Pick2(0, r.Intn(nd+2)), encStr(data)))
+				continue
+			}
+			fallthrough
 		default: // whole streams
 			kind := r.Pick([]string{"xml", "seq", "json"})
 			nd := 1 + r.Intn(4)
